@@ -1,8 +1,10 @@
 package certlib
 
 import (
+	"bytes"
 	"crypto/elliptic"
 	"crypto/sha256"
+	"encoding/hex"
 	"fmt"
 	"math/big"
 
@@ -31,33 +33,44 @@ func GrindShortS(r *hlib.Rand, key *SignKey, f Fields, budget int) (Fields, *big
 	kinv := new(big.Int).ModInverse(k, p256N)
 	rd := new(big.Int).Mod(new(big.Int).Mul(rr, d), p256N)
 	lim := new(big.Int).Lsh(one, 239)
+	// the to-be-signed bytes are encoded once with a fixed-width counter in the name, which is then overwritten in place
 	base := f.Name
-	ctr := r.Intn(1 << 20)
-	for i := 0; i < budget; i++ {
-		f.Name = fmt.Sprintf("%s-%x", base, ctr+i)
-		var tbs []byte
+	f.Name = base + "-00000000"
+	encode := func() []byte {
 		if f.Version == 1 {
-			var err error
-			tbs, err = proto.Marshal(V1Details(f))
+			tbs, err := proto.Marshal(V1Details(f))
 			if err != nil {
 				panic(err)
 			}
-		} else {
-			tbs = append(append(V2Details(f), byte(f.Curve)), f.PublicKey...)
+			return tbs
 		}
+		return append(append(V2Details(f), byte(f.Curve)), f.PublicKey...)
+	}
+	tbs := encode()
+	if bytes.Count(tbs, []byte(f.Name)) != 1 {
+		return f, nil, nil, false
+	}
+	at := bytes.Index(tbs, []byte(f.Name)) + len(base) + 1
+	ctr := uint32(r.U64())
+	z, s, hi := new(big.Int), new(big.Int), new(big.Int)
+	for i := 0; i < budget; i++ {
+		hex.Encode(tbs[at:at+8], []byte{byte(ctr >> 24), byte(ctr >> 16), byte(ctr >> 8), byte(ctr)})
 		h := sha256.Sum256(tbs)
-		z := new(big.Int).SetBytes(h[:])
-		s := z.Add(z, rd)
+		z.SetBytes(h[:])
+		s.Add(z, rd)
 		s.Mul(s, kinv).Mod(s, p256N)
-		if s.Sign() == 0 {
-			continue
+		low := s
+		if hi.Sub(p256N, s); hi.Cmp(s) < 0 {
+			low = hi
 		}
-		if s.Cmp(lim) < 0 {
-			return f, rr, s, true
+		if low.Sign() != 0 && low.Cmp(lim) < 0 {
+			f.Name = fmt.Sprintf("%s-%08x", base, ctr)
+			if !bytes.Equal(encode(), tbs) {
+				panic("harness: in-place name does not match the encoding")
+			}
+			return f, rr, new(big.Int).Set(low), true
 		}
-		if hi := new(big.Int).Sub(p256N, s); hi.Cmp(lim) < 0 {
-			return f, rr, hi, true
-		}
+		ctr++
 	}
 	return f, nil, nil, false
 }
